@@ -338,11 +338,12 @@ Definition cnode_eqb (a b : cnode) : bool :=
   end.
 
 (* allocation of a graph with the given content at the end of the memory *)
+Definition cnode_to_node (base : nat) (x : cnode) : node :=
+  match x with (u, l, p, ps) => mk_node u l p (map (fun i => base + i) ps) end.
+
 Definition alloc_graph (m : mem) (c : list cnode) : mem * gref :=
   let base := List.length (mn m) in
-  (mk_mem (mn m ++ map (fun x => match x with (u, l, p, ps) =>
-                                   mk_node u l p (map (fun i => base + i) ps) end) c)
-          (mg m ++ [seq base (List.length c)]),
+  (mk_mem (mn m ++ map (cnode_to_node base) c) (mg m ++ [seq base (List.length c)]),
    List.length (mg m)).
 
 (* the observed behaviour of the real functions, as functions: token k = "the k-th recorded
